@@ -65,7 +65,7 @@ TEXTS = {
                 "API of the finished ontology (every resolving iterator of every term and record, each of which panics on an id that does not "
                 "resolve) returns. The check runs every "
                 "generated call history twice on the real Builder (with and without its failing calls), demands identical read-API dumps, "
-                "exact error codes (fails iff an absent term is named), a panic-free complete read-API walk, and agreement with the model. NO DANGLING IDS ON EVERY CONSTRUCTION PATH: C15_wellformed_ontologies_walk_returns (any ontology with exact caches, children = parents^-1, inherited annotation sets and records naming stored terms), hence C15_jax_ontologies_walk_returns, C15_sub_ontologies_walk_returns, C15_binary_ontologies_walk_returns. C15_every_constructed_ontology_walk_returns: the same for the inductive closure of all public constructors. C15_annotate_on_stored_term_succeeds / C15_annotate_on_absent_term_is_rejected: annotate_* is rejected only for an absent term (Err(DoesNotExist)); on a stored term it returns Ok. C15_builder_scripts_run_to_the_end: a script with ids inside the id space whose successful add_parent calls describe an acyclic graph always runs to the end (rejected calls are Errs; nothing panics or runs out of fuel), whatever the order of the calls.",
+                "exact error codes (fails iff an absent term is named), a panic-free complete read-API walk, and agreement with the model. NO DANGLING IDS ON EVERY CONSTRUCTION PATH: C15_wellformed_ontologies_walk_returns (any ontology with exact caches, children = parents^-1, inherited annotation sets and records naming stored terms), hence C15_jax_ontologies_walk_returns, C15_sub_ontologies_walk_returns, C15_binary_ontologies_walk_returns. C15_every_constructed_ontology_walk_returns: the same for the inductive closure of all public constructors. C15_annotate_on_stored_term_succeeds / C15_annotate_on_absent_term_is_rejected: annotate_* is rejected only for an absent term (Err(DoesNotExist)); on a stored term it returns Ok. C15_builder_scripts_run_to_the_end: a script with ids inside the id space whose successful add_parent calls describe an acyclic graph always runs to the end (rejected calls are Errs; nothing panics or runs out of fuel), whatever the order of the calls. BINARY FILES (C15_decoded_records_name_stored_terms, EVERY byte string): an ontology from_bytes returns lists only stored terms in its gene / disease records; an eighth of the C15 cases are binary files, most with a record naming a term the file lacks (statement: whatever is returned is referentially closed and can be walked).",
         "design_ref": "DESIGN.md §4 C15, §9", "note": NOTE_COMMON, "technique": TECH,
     },
     "C16": {
@@ -85,7 +85,7 @@ TEXTS = {
                 "categories ascending, build_with_defaults errs iff a root is missing; root ids regenerated from the source; for every "
                 "Builder-built ontology 'ancestors' is the transitive closure of the is_a links (C19_builder_is_modifier, "
                 "C19_builder_categories). Tied to the crate "
-                "by correspondence and by evaluating spec_C19 on the crate's observations. The same for EVERY ontology with exact caches (C19_is_modifier_exact_caches, C19_categories_exact_caches): JAX loads, sub-ontologies and accepted binary files are such. SOUNDNESS OF THE STATEMENT (C19_accepted_observation_means): what defaults_ok accepts is exactly the documented default sets and per-term classification. A third of the C19 worlds replace both groups through categories_mut / modifier_mut: is_modifier / categories must follow whatever groups are set.",
+                "by correspondence and by evaluating spec_C19 on the crate's observations. The same for EVERY ontology with exact caches (C19_is_modifier_exact_caches, C19_categories_exact_caches): JAX loads, sub-ontologies and accepted binary files are such. SOUNDNESS OF THE STATEMENT (C19_accepted_observation_means): what defaults_ok accepts is exactly the documented default sets and per-term classification. A third of the C19 worlds replace both groups through categories_mut / modifier_mut: is_modifier / categories must follow whatever groups are set. C19_setters_replace_previous_groups / C19_setters_idempotent: set_default_categories + set_default_modifier end in groups that depend on the terms alone; the world WDefaults runs them on ontologies whose groups were edited before.",
         "design_ref": "DESIGN.md §4 C19", "note": NOTE_COMMON, "technique": TECH,
     },
     "C04": {
@@ -111,7 +111,7 @@ TEXTS = {
                 "GroupSimilarity builds the |A| x |B| row-major matrix; the caching adaptor is transparent for every similarity and every "
                 "reachable cache state (invariant proof over the query sequence); with a symmetric similarity the result is order-independent "
                 "in every number structure with commutative + and max. Tied to the crate bit for bit (Flocq binary32) on generated matrices, "
-                "set pairs, asymmetric table-driven similarities and cached query sequences, incl. the log of inner similarity calls. A second cached adaptor around another similarity is alive at the same time and used alternately on the same queries (adaptors must not share their memo).",
+                "set pairs, asymmetric table-driven similarities and cached query sequences, incl. the log of inner similarity calls. A second cached adaptor around another similarity is alive at the same time and used alternately on the same queries (adaptors must not share their memo). C05_model_meets_statement_on_matrices: the matrix half of spec_C05 holds of the transcription for ALL dimensions and data.",
         "design_ref": "DESIGN.md §4 C05",
         "note": NOTE_COMMON + "Axioms: the four standard-library axioms behind Coq Reals (via Flocq's binary32 definitions). Commutativity of binary32 + is a hypothesis of the symmetry theorem (not proved for Flocq here); the check compares (A,B) with (B,A) bit for bit instead.",
         "technique": TECH,
